@@ -2,15 +2,7 @@
 //! usage: vcheck <CNN> [--tier quick|thorough] [--replay FILE]
 
 #![allow(dead_code, clippy::all)]
-mod alloc;
-mod debug;
-mod drivers;
-mod engine;
-mod gen;
-mod model;
-mod props;
-mod refz;
-mod selftest;
+use vcheck::{alloc, debug, engine, props};
 
 #[global_allocator]
 static GLOBAL: alloc::VAlloc = alloc::VAlloc;
